@@ -17,6 +17,9 @@ inductive Kind where
                     -- postConstruction (or a member function they call) calls its non-const begin()/end()
   | localStatic     -- non-const function-local static in such a file
   | globalVar       -- non-const static data member / file-scope static (process-wide state)
+  | transformTouch  -- a function reachable from a NON-STATIC member of XalanTransformer (the per-thread API) through
+                    -- XalanTransformer / XSLTProcessorEnvSupportDefault / XPathEnvSupportDefault mentions a process-wide
+                    -- variable: scope = the variable, name = the function
 deriving DecidableEq, Repr
 
 structure Entry where
@@ -41,6 +44,7 @@ def Kind.toString : Kind → String
   | .lazyContainer => "lazyContainer"
   | .localStatic => "localStatic"
   | .globalVar => "globalVar"
+  | .transformTouch => "transformTouch"
 
 /-- `kind|scope|name` as a base-256 number -/
 def encodeKey (s : String) : Nat :=
@@ -98,6 +102,9 @@ inductive Guard where
   return a null iterator for a list that never held an element and allocate nothing.  Valid exactly while
   `XalanList::getListHead() const` has no const caller — `guardEvidence` requires the table to contain that very entry -/
   | listConstNoAlloc
+  /-- (transformTouch) the function only reads the process-wide variable (hand-checked; the writers are the static
+  initialize/terminate/install*Global members, which are not reachable from the per-thread API) -/
+  | readOnlyUse
 deriving DecidableEq, Repr
 
 
